@@ -41,6 +41,8 @@ class C20(Check):
         if race is None:
             raise RuntimeError("race build of the harness failed: " + err[-1500:])
         G = 8 if self.tier == "quick" else 64
+        if not build_ok:
+            G = 64          # a footprint obligation broke: look harder for an interleaving that shows it
         mult = 1 if self.tier == "quick" else 4
 
         def one(fi):
